@@ -41,24 +41,44 @@ pub open spec fn any_from(doc: ExecutableDocument, ss: SelectionSet, k: nat, cur
 '''
 
 DIR_SPEC = r'''
-// "directives per field, with fragments counted as if written inline": some field reachable from `ss`
-// (through sub-selections, inline fragments and spreads, at most `fuel` levels deep) carries more than `limit` directives.
-pub open spec fn too_many(doc: ExecutableDocument, ss: SelectionSet, limit: nat, fuel: nat) -> bool
-    decreases fuel
-{
-    if fuel == 0 { false } else {
-        exists|i: int| 0 <= i < ss.items.len() && #[trigger] too_many_sel(doc, ss.items[i].node, limit, (fuel - 1) as nat)
+// sub-selection opened by a selection for the directive walker (a field's selection set is visited even when empty)
+pub open spec fn sub_set(doc: ExecutableDocument, sel: Selection) -> Option<SelectionSet> {
+    match sel {
+        Selection::Field(f) => Some(f.node.selection_set.node),
+        Selection::FragmentSpread(s) => if doc.fragments.view().contains_key(s.node.fragment_name.node.text()) {
+                Some(doc.fragments.view()[s.node.fragment_name.node.text()].node.selection_set.node) } else { None },
+        Selection::InlineFragment(i) => Some(i.node.selection_set.node),
     }
 }
-pub open spec fn too_many_sel(doc: ExecutableDocument, sel: Selection, limit: nat, fuel: nat) -> bool
-    decreases fuel, 0nat
-{
-    match sel {
-        Selection::Field(f) => f.node.directives.len() > limit || (fuel > 0 && too_many(doc, f.node.selection_set.node, limit, fuel)),
-        Selection::FragmentSpread(s) => doc.fragments.view().contains_key(s.node.fragment_name.node.text())
-            && fuel > 0 && too_many(doc, doc.fragments.view()[s.node.fragment_name.node.text()].node.selection_set.node, limit, fuel),
-        Selection::InlineFragment(i) => fuel > 0 && too_many(doc, i.node.selection_set.node, limit, fuel),
+pub open spec fn own_dirs(sel: Selection) -> nat { match sel { Selection::Field(f) => f.node.directives.len() as nat, _ => 0 } }
+// shallow(doc, ss, fuel): with fragments inlined, `ss` nests fewer than `fuel` levels (finite expansion; false for cyclic fragments)
+pub open spec fn shallow(doc: ExecutableDocument, ss: SelectionSet, fuel: nat) -> bool decreases fuel, ss.items.len() + 1 {
+    fuel > 0 && shallow_from(doc, ss, 0, fuel)
+}
+pub open spec fn shallow_from(doc: ExecutableDocument, ss: SelectionSet, k: nat, fuel: nat) -> bool decreases fuel, ss.items.len() - k {
+    if fuel == 0 { false } else if k >= ss.items.len() { true } else {
+        (sub_set(doc, ss.items[k as int].node) is Some ==> shallow(doc, sub_set(doc, ss.items[k as int].node)->Some_0, (fuel - 1) as nat))
+        && shallow_from(doc, ss, k + 1, fuel)
     }
+}
+// too_many(doc, ss, limit, fuel): "a field reachable from ss, fragments counted as if written inline, carries more than `limit` directives"
+// (exact whenever shallow(doc, ss, fuel))
+pub open spec fn too_many(doc: ExecutableDocument, ss: SelectionSet, limit: nat, fuel: nat) -> bool decreases fuel, ss.items.len() + 1 {
+    fuel > 0 && too_many_from(doc, ss, limit, 0, fuel)
+}
+pub open spec fn too_many_from(doc: ExecutableDocument, ss: SelectionSet, limit: nat, k: nat, fuel: nat) -> bool decreases fuel, ss.items.len() - k {
+    if fuel == 0 || k >= ss.items.len() { false } else {
+        own_dirs(ss.items[k as int].node) > limit
+        || (sub_set(doc, ss.items[k as int].node) is Some && too_many(doc, sub_set(doc, ss.items[k as int].node)->Some_0, limit, (fuel - 1) as nat))
+        || too_many_from(doc, ss, limit, k + 1, fuel)
+    }
+}
+pub proof fn lemma_shallow_at(doc: ExecutableDocument, ss: SelectionSet, k: nat, j: nat, fuel: nat)
+    requires shallow_from(doc, ss, k, fuel), k <= j < ss.items.len(), sub_set(doc, ss.items[j as int].node) is Some
+    ensures fuel > 0, shallow(doc, sub_set(doc, ss.items[j as int].node)->Some_0, (fuel - 1) as nat)
+    decreases j - k
+{
+    if k < j { lemma_shallow_at(doc, ss, k + 1, j, fuel); }
 }
 '''
 
@@ -74,11 +94,8 @@ def depth_unit(kf):
     u.spec(DEPTH_SPEC, 'nesting depth spec')
     u.extract_fn(S, ['fn check_recursive_depth', 'fn check_selection_set'], name='rd_check_selection_set',
                  label=S + '::fn check_recursive_depth::fn check_selection_set (nested)',
-                 rewrites=ERR + [Sub('check_selection_set(', 'rd_check_selection_set(', count=3, rule='R-hoist'),
-                                 Sub('for selection in &selection_set.node.items', 'for selection in it: &selection_set.node.items', rule='R-iter'),
-                                 Sub('if let Some(fragment) = doc.fragments.get(&fragment_spread.node.fragment_name.node) {',
-                                     'match doc.fragments.get(&fragment_spread.node.fragment_name.node) { None => {}, Some(fragment) => {', rule='R-iflet'),
-                                 Sub(')?; } } Selection::InlineFragment', ')?; } } } Selection::InlineFragment', rule='R-iflet')],
+                 rewrites=ERR + [Sub('check_selection_set(', 'rd_check_selection_set(', count='+', rule='R-hoist'),
+                                 Sub('for selection in &selection_set.node.items', 'for selection in it: &selection_set.node.items', rule='R-iter'),],
                  requires=['current_depth <= max_depth + 1', 'max_depth < usize::MAX - 1'],
                  ensures=['r.is_err() <==> exceeds(*doc, selection_set.node, current_depth as nat, max_depth as nat)'],
                  decreases='max_depth + 1 - current_depth',
@@ -94,4 +111,34 @@ def depth_unit(kf):
     return u
 
 
-UNITS = {'c10_recursive_depth': (['C10', 'C12'], depth_unit)}
+
+def directives_unit(kf):
+    u = Unit('c10_max_directives', ['C10'], 'check_max_directives rejects exactly the documents with a reachable field carrying too many directives')
+    u.kf = kf
+    value_types(u)
+    ast_types(u)
+    u.trusted(SHIM, 'ServerError shim')
+    u.spec(DIR_SPEC, 'directive limit spec')
+    SS = 'selection_set.node'
+    u.extract_fn(S, ['fn check_max_directives', 'fn check_selection_set'], name='md_check_selection_set',
+                 label=S + '::fn check_max_directives::fn check_selection_set (nested)',
+                 rewrites=ERR + [Sub('check_selection_set(', 'md_check_selection_set(', count='+', rule='R-hoist'),
+                                 Sub('for selection in &selection_set.node.items', 'for selection in it: &selection_set.node.items', rule='R-iter'),],
+                 ensures=[f'forall|fuel: nat| #[trigger] shallow(*doc, {SS}, fuel) ==> (r.is_err() <==> too_many(*doc, {SS}, limit_directives as nat, fuel))'],
+                 loops={0: dict(prop=[f'forall|fuel: nat| #[trigger] shallow(*doc, {SS}, fuel) ==> (too_many(*doc, {SS}, limit_directives as nat, fuel) <==> too_many_from(*doc, {SS}, limit_directives as nat, it.index@ as nat, fuel))'],
+                                aux=[],
+                                head=f'''proof {{
+    assert(*selection == {SS}.items@[it.index@ as int]);
+    assert forall|fuel: nat| #[trigger] shallow(*doc, {SS}, fuel) && sub_set(*doc, selection.node) is Some implies
+        fuel > 0 && shallow(*doc, sub_set(*doc, selection.node)->Some_0, (fuel - 1) as nat) by {{
+        lemma_shallow_at(*doc, {SS}, 0, it.index@ as nat, fuel);
+    }}
+}}''')},
+                 attrs=['#[verifier::loop_isolation(false)]', '#[verifier::exec_allows_no_decreases_clause]'])
+    u.assume('check_max_directives::check_selection_set: termination NOT proved (exec_allows_no_decreases_clause): it recurses through fragment spreads and terminates only because check_recursive_depth has already rejected cyclic / too deep documents (call order in prepare_request, unverified)')
+    u.search_case('check_max_directives', 'c10_directives')
+    return u
+
+
+UNITS = {'c10_recursive_depth': (['C10', 'C12'], depth_unit), 'c10_max_directives': (['C10'], directives_unit)}
+SEARCH = {'c10_recursive_depth': ['c10_depth'], 'c10_max_directives': ['c10_directives']}
